@@ -14,6 +14,7 @@ RULE = ("plans: listener (http/https/socks5/socks4/reverse) x connector (direct/
         "kernel-lane splice) x close script (client half-close then origin keeps sending; origin half-close then client keeps sending; simultaneous FIN; "
         "client RST or origin RST at a seeded offset with bytes in flight the other way; close while the peer is back-pressured) x chaos; non-trivial = "
         "tunnel established and a FIN or RST landed while >=1 byte was still to be delivered in some direction; distinct = event-order hash")
+RULE_MORE = 'Later additions: SO_LINGER 0 is modelled on the in-memory lane; reset-and-hold scripts with /api/live polls; seeded short splice counts; an abort while the proxy is blocked writing to a peer that does not read (bp-rst).'
 LEVEL_TEXT = ("seeded exploration of the real copy loop (both copy_half branches, real splice(2)/pipe(2)/poll(2) on the kernel lane): every plan closes or aborts "
               "one side at a seeded offset and checks on the virtual clock that EOF is seen only after all bytes, that the opposite direction keeps "
               "flowing, that both sockets are closed promptly after both ends finished or one aborted, and that the record ends in exactly one terminal state")
